@@ -44,13 +44,37 @@ def gen_program(rng, gl):
                 con = (rng.randrange(0, ln), rng.choice('lge'), rng.choice((0, 100, 462, 520, 751, 777, 1000, 1500)))
             rules.append(dict(pre=pre, pat=pat, acts=acts, con=con))
         prog.append(dict(maxloop=rng.choice((1, 3, 5)), rules=rules, alpha=alpha))
-    return prog
+    nsub = len(prog)
+    # positioning passes: attach items to earlier / later items of the window, set attach / with points, shifts, advances
+    for _ in range(rng.choice((0, 0, 1, 1, 2))):
+        pre = rng.choice((0, 0, 1))
+        alpha = rng.sample(gl, rng.randrange(3, 7)) if rng.random() < 0.5 else list(prog[-1]['alpha'])
+        rules = []
+        for _ in range(rng.randrange(1, 5)):
+            ln = rng.randrange(pre + 1, min(5, pre + 3) + 1)
+            pat = [set(rng.sample(alpha, rng.randrange(1, min(4, len(alpha)) + 1))) for _ in range(ln)]
+            acts = []
+            for j in range(pre, ln):
+                al = []
+                if ln > 1 and rng.random() < 0.6:
+                    ref = rng.choice([r for r in range(-j, ln - j) if r != 0])
+                    al.append(('T', ref))
+                    if rng.random() < 0.7: al.append(('P', rng.choice((0, 100, 300, -50, 600)), rng.choice((0, 0, 250, -120))))
+                    if rng.random() < 0.4: al.append(('W', rng.choice((0, 10, 200)), rng.choice((0, 20, -30))))
+                if rng.random() < 0.2: al.append(('X', rng.choice((-50, 30, 200))))
+                if rng.random() < 0.15: al.append(('Y', rng.choice((-80, 60))))
+                if rng.random() < 0.2: al.append(('A', rng.choice((0, 100, 777, 1500))))
+                acts.append(al)
+            con = (rng.randrange(0, ln), rng.choice('lge'), rng.choice((0, 462, 520, 751, 1000))) if rng.random() < 0.2 else None
+            rules.append(dict(pre=pre, pat=pat, acts=acts, con=con))
+        prog.append(dict(maxloop=rng.choice((1, 3, 5)), rules=rules, alpha=alpha))
+    return prog, nsub
 
 
 def run(chk):
     chk.trusted += ['hand model Model/RuleModel.v (reference semantics of the GDL-lite subset)', 'tools/props/fontkit.py: the GDL-lite compiler (FSM by subset construction, action bytecode, Silf v2 layout) — a wrong '
                     'compilation shows as a disagreement, it cannot hide one', 'shaping harness harness/impl_shape.cpp']
-    chk.assumptions += ['GDL-lite: rule constraints limited to one advance comparison on one item (cntxt_item + push_slot_attr), cursor left after the window (ret = 0), no attachment, substitution passes only; pass constraints, feature / glyph-attribute tests, cursor adjustment and positioning passes are outside this check',
+    chk.assumptions += ['GDL-lite: rule constraints limited to one advance comparison on one item (cntxt_item + push_slot_attr), cursor left after the window (ret = 0), left-to-right only; pass constraints, feature / glyph-attribute tests, cursor adjustment, bidi / mirroring and collision passes are outside this check',
                         'reads inside an action refer to the window as it was when the rule fired (the engine keeps a temp copy of a slot that is both changed and referenced)']
     chk.partial = True
     chk.check_proofs()
@@ -85,9 +109,9 @@ def run(chk):
     advtab = ','.join(str(advs.get(g, hadv[g])) for g in range(ng))
     cases, mcases, progs = [], [], []
     for k in range(1500 if thorough else 150):
-        prog = gen_program(rng, gl)
+        prog, nsub = gen_program(rng, gl)
         try:
-            data = K.build_font(base, prog)
+            data = K.build_font(base, prog, nsub)
         except (AssertionError, ValueError, struct_error) as e:
             chk.tie_break('compiler', 'fontkit failed: %s' % e); continue
         p = os.path.join(tmp, 'p%d.ttf' % k)
@@ -99,7 +123,7 @@ def run(chk):
             gids = [rng.choice(alpha) if rng.random() < 0.85 else rng.choice(gl) for _ in range(n)]
             cid = 'q%d.%d' % (k, t)
             cases.append(S.case_line(cid, p, [inv[g] for g in gids], 32, ops=('dump',)))
-            mcases.append('%s gdl %s %s %s' % (cid, text, advtab, ','.join(map(str, gids))))
+            mcases.append('%s gdl %d %s %s %s' % (cid, nsub, text, advtab, ','.join(map(str, gids))))
             progs.append((p, text))
     _, il, _ = vlib.run_pair(None, w, cases, timeout=3000)
     ml, _, _ = vlib.run_pair(mexe, None, mcases, timeout=3000)
@@ -116,20 +140,19 @@ def run(chk):
                 chk.tie_break('compiler', 'the engine rejects a font compiled by fontkit: %s' % text[:300], c[:300])
             continue
         d = S.parse_dump(' '.join(i.split(' | ')[0].split()[1:]))
-        got = ';'.join('%d,%d,%d' % (int(s[0]), int(float(s[10])), int(float(s[8]))) for s in d['slots'])
+        got = 'adv=%d ' % int(float(d['adv'].split(',')[0])) + ';'.join('%d,%d,%d,%d,%s' % (int(s[0]), int(float(s[10])), int(float(s[8])), int(float(s[9])), s[5]) for s in d['slots'])
         exp = m.split(' R ', 1)[1] if ' R ' in m else '?'
         stats['compared'] = stats.get('compared', 0) + 1
-        fired = exp != ';'.join('%s,%d,%d' % (g, advs.get(int(g), 0), 0) for g in mc.split()[-1].split(','))
-        classes.add((text.count('/'), text.count(';') > 2, len(d['slots']), 'D' in text, 'I' in text, 'S' in text, got == exp))
+        classes.add((text.count('/'), text.count(';') > 2, len(d['slots']), 'D' in text, 'I' in text, 'S' in text, 'T' in text, any(s[5] != '-1' for s in d['slots']), got == exp))
         if got != exp:
-            chk.violation('c06:%s|%s' % (text[:120], mc.split()[-1][:40]), 'the engine and the reference semantics disagree on glyphs / advances / origins: engine %s, reference %s' % (got[:300], exp[:300]),
+            chk.violation('c06:%s|%s' % (text[:120], mc.split()[-1][:40]), 'the engine and the reference semantics disagree on glyphs / advances / origins / attachments: engine %s, reference %s' % (got[:300], exp[:300]),
                           dict(case=c, model_case=mc, got=i[:1500], program=text, font_gz_b64=blob(fp)))
     shutil.rmtree(tmp, ignore_errors=True)
     chk.notes.append('programs x strings: %s' % sorted(stats.items()))
     chk.cov.update(evaluations=len(cases), distinct_nontrivial=len(classes), disagreements_checked=ndis, distribution={BASE: len(cases)},
                    rule='random GDL-lite programs: 1-3 passes, uniform pre-context 0..2, 1-6 rules of length <= 5 over a 3-8 glyph alphabet (overlapping sets, so several rules match at a position and sort keys / rule order '
-                        'decide), optional constraint on the advance of one item (also of pre-context items, also on values set by an earlier pass), actions put_glyph / put_subs (with references to earlier, later and own items) / delete / insert / advance / shift; each compiled to a font and run on 6-8 glyph strings of 1-12 glyphs; '
-                        'glyph ids, advances and design-unit origins compared with the extracted reference; non-trivial = distinct (#passes, many rules, output length, uses delete / insert / subs, verdict)',
+                        'decide), optional constraint on the advance of one item (also of pre-context items, also on values set by an earlier pass), actions put_glyph / put_subs (with references to earlier, later and own items) / delete / insert / advance / shift, followed by 0-2 positioning passes whose rules attach items to earlier or later items (re-attachment, cycles refused), set attach / with points, shifts and advances; each compiled to a font and run on 6-8 glyph strings of 1-12 glyphs; '
+                        'glyph ids, advances, attachment parents, design-unit origins (x, y) and the segment advance compared with the extracted reference (final positions through the positioning model of C15); non-trivial = distinct (#passes, many rules, output length, uses delete / insert / subs, verdict)',
                    samples=[mcases[0][:300], mcases[len(mcases) // 2][:300]], exhaustive=False)
 
 
@@ -161,7 +184,7 @@ def replay(chk, obj):
     print(rp.get('program', '')[:400]); print(' impl :', (il[0] or '')[:800]); print(' model:', (ml[0] or '')[:800])
     try:
         d = S.parse_dump(' '.join(il[0].split(' | ')[0].split()[1:]))
-        got = ';'.join('%d,%d,%d' % (int(s[0]), int(float(s[10])), int(float(s[8]))) for s in d['slots'])
+        got = 'adv=%d ' % int(float(d['adv'].split(',')[0])) + ';'.join('%d,%d,%d,%d,%s' % (int(s[0]), int(float(s[10])), int(float(s[8])), int(float(s[9])), s[5]) for s in d['slots'])
         return 0 if got == ml[0].split(' R ', 1)[1] else 1
     except (ValueError, IndexError, AttributeError):
         return 1
